@@ -276,12 +276,14 @@ Definition opt_unset_or_nil (c : option pa) : bool :=
   match c with Some p => is_unset (pa_mtls p) | None => true end.
 Definition is_some {A} (o : option A) : bool := match o with Some _ => true | None => false end.
 
-(* the STRICT-port skip condition, with Go's operator precedence:
-   A || ((U && N) || R)   — R is not under the U guard (candidate defect K2) *)
+(* the STRICT-port skip condition:  A || (U && (N || R))
+   (since /repo 06bf447 "fix: only skip a STRICT port-level rule for ambient when the workload-level mode is
+   UNSET"; before that Go's precedence read it as A || ((U && N) || R) — former finding K2) *)
 Definition skip_strict_port (mode_wl : mode) (nsc rootc : option pa) : bool :=
   is_strict mode_wl ||
-  ((is_unset mode_wl && (is_some nsc && opt_strict nsc)) ||
-   ((negb (is_some nsc) || opt_unset_or_nil nsc) && is_some rootc && opt_strict rootc)).
+  (is_unset mode_wl &&
+   ((is_some nsc && opt_strict nsc) ||
+    ((negb (is_some nsc) || opt_unset_or_nil nsc) && is_some rootc && opt_strict rootc))).
 
 (* the PERMISSIVE/DISABLE-port skip conditions *)
 Definition skip_nonstrict_port (mode_wl : mode) (nsc rootc : option pa) : bool :=
